@@ -72,6 +72,8 @@ func (registry *AddressesRegistry) RemovedAddresses() []string {
 func (registry *AddressesRegistry) Synchronize(_ int64) {
 	registry.registeredMutex.RLock()
 	defer registry.registeredMutex.RUnlock()
+	registry.temporaryMutex.Lock()
+	defer registry.temporaryMutex.Unlock()
 	registry.removedMutex.Lock()
 	defer registry.removedMutex.Unlock()
 	for address := range registry.registeredAddresses {
@@ -82,8 +84,6 @@ func (registry *AddressesRegistry) Synchronize(_ int64) {
 			registry.removedAddresses = append(registry.removedAddresses, address)
 		}
 	}
-	registry.temporaryMutex.Lock()
-	defer registry.temporaryMutex.Unlock()
 }
 
 func (registry *AddressesRegistry) Update(addedAddresses []string, removedAddresses []string) {
